@@ -324,12 +324,17 @@ def rule_cache(ctx: Ctx):
             okflow, why = False, f"loadb argument `{norm(a0) if a0 is not None else '?'}`"
             continue
         defs = [s_ for s_ in stmts_local(db.body) if isinstance(s_, ast.Assign) and norm(s_.targets[0]) == a0.id]
+        # `= None` next to the read (the file could not be read: nothing to load) is not an interpretation of the bytes
+        none_defs = [d_ for d_ in defs if isinstance(d_.value, ast.Constant) and d_.value.value is None]
+        defs = [d_ for d_ in defs if d_ not in none_defs]
         if not (len(defs) == 1 and isinstance(defs[0].value, ast.Call) and isinstance(defs[0].value.func, ast.Attribute) and defs[0].value.func.attr == "read_bytes"
                 and not defs[0].value.args):
             okflow, why = False, f"`{a0.id}` is not the raw result of <cache file>.read_bytes(): {[norm(x)[:60] for x in defs]}"
             continue
         other = [n for n in walk_local(db) if isinstance(n, ast.Name) and n.id == a0.id and isinstance(n.ctx, ast.Load)
-                 and not (isinstance(n.parent, ast.Call) and norm(n.parent.func).endswith("loadb"))]
+                 and not (isinstance(n.parent, ast.Call) and norm(n.parent.func).endswith("loadb"))
+                 and not (isinstance(n.parent, ast.Compare) and len(n.parent.ops) == 1 and isinstance(n.parent.ops[0], (ast.Is, ast.IsNot))
+                          and isinstance(n.parent.comparators[0], ast.Constant) and n.parent.comparators[0].value is None)]
         if other:
             okflow, why = False, f"`{a0.id}` is also used by `{norm(other[0].parent)[:50]}`"
     ctx.ob("R-C14-4", f"{q}/cache-bytes-only-into-guarded-load", okflow,
